@@ -1158,7 +1158,8 @@ impl<'a> Parser<'a> {
 
     let mut segments: Vec<StringSegments> = self.vec();
     loop {
-      if segments.len() == u16::MAX as usize {
+      // the interpolate instruction counts the start and end of the string as well
+      if segments.len() == (u16::MAX - 2) as usize {
         return self.error(&format!(
           "Cannot have more than {} segments in a string interpolation",
           segments.len()
